@@ -259,6 +259,53 @@ class LogIO(io.BytesIO):
         return super().write(b)
 
 
+FAULT_ERRORS = {"EAGAIN": (BlockingIOError, 11, "Resource temporarily unavailable"), "EIO": (OSError, 5, "Input/output error"),
+                "EPIPE": (BrokenPipeError, 32, "Broken pipe"), "EINTR": (InterruptedError, 4, "Interrupted system call")}
+
+
+class FaultIO(LogIO):
+    """A logging stream on which ONE call (a write or a flush) fails before taking effect.  `ctl` is shared by the streams of a
+    case: while ctl["in_op"], the calls of the current operation are counted; call number ctl["pick"] among the ELIGIBLE ones
+    raises.  Eligible: a write (for a directly printed placeholder only while nothing of the operation has been accepted yet:
+    the library logs a placeholder as a whole after printing it, and a caller cannot repeat half a placeholder) and a flush
+    that precedes the operation's first accepted write (a flush after it has nothing left to refuse: the stream object has
+    accepted the bytes already)."""
+
+    def __init__(self, log, ctl, name):
+        super().__init__(log)
+        self.ctl = ctl
+        self.name = name
+
+    def _call(self, method):
+        ctl = self.ctl
+        if not ctl["in_op"]:
+            return
+        ctl["trace"].append(self.name + "." + method)
+        if ctl["armed"]:
+            if method == "write":
+                ok = ctl["opname"] != "placeholder" or ctl["accepted"] == 0
+            else:
+                ok = ctl["accepted"] == 0
+            if ok:
+                if ctl["seen"] == ctl["pick"]:
+                    ctl["armed"] = False
+                    ctl["fired"] = "%s.%s call #%d of the operation (after %d accepted writes)" % (self.name, method, len(ctl["trace"]) - 1, ctl["accepted"])
+                    cls, no, msg = FAULT_ERRORS[ctl["err"]]
+                    raise cls(no, msg)
+                ctl["seen"] += 1
+
+    def write(self, b):
+        self._call("write")
+        n = super().write(b)
+        if self.ctl["in_op"]:
+            self.ctl["accepted"] += 1
+        return n
+
+    def flush(self):
+        self._call("flush")
+        return super().flush()
+
+
 def _api_file(ctx: Ctx, data: bytes) -> str:
     """A real file holding `data` (for file transmissions, which a terminal with force_direct_transmission reads)."""
     import hashlib
@@ -336,13 +383,22 @@ def _check_api(ctx: Ctx, c: dict):
     from tupimage.graphics_terminal import GraphicsTerminal
     d = ctx.driver("drv_sh")
     log: list[bytes] = []
-    stream = LogIO(log)
+    stream = out_command = LogIO(log)
+    fault = c.get("fault")
+    if fault is not None:
+        # {"op": index in ops, "pick": n-th eligible stream call of that operation, "err": errno name, "split": separate command stream}
+        ctl = {"in_op": False, "armed": False, "pick": fault["pick"], "err": fault["err"], "seen": 0, "accepted": 0, "opname": None,
+               "trace": [], "fired": None}
+        stream = out_command = FaultIO(log, ctl, "display" if fault.get("split") else "stream")
+        if fault.get("split"):
+            out_command = FaultIO(log, ctl, "command")
+        ctx.count("fault-streams:" + ("separate" if fault.get("split") else "one"))
     # the script objects of the case: number 0 is given to the constructor unless the case says otherwise ("ctor_script":
     # null = the terminal is constructed without a script); ["script", who, k] attaches script k (null: none) to an object
     # by assigning its public attribute `shellscript_out`, the way tupimage.testing.cli starts a new recording
     scripts = [io.StringIO() for _ in range(c.get("scripts", 1))]
     first = c.get("ctor_script", 0)
-    term = GraphicsTerminal(out_command=stream, out_display=stream, in_response=LogIO([]), in_userinput=LogIO([]),
+    term = GraphicsTerminal(out_command=out_command, out_display=stream, in_response=LogIO([]), in_userinput=LogIO([]),
                             max_command_size=c.get("max"), num_tmux_layers=c.get("tmux", 0),
                             shellscript_out=None if first is None else scripts[first],
                             force_placeholders=bool(c.get("fp", False)), force_direct_transmission=bool(c.get("fd", False)))
@@ -355,7 +411,7 @@ def _check_api(ctx: Ctx, c: dict):
     cur = "0"
     during: dict = {k: [] for k in range(len(scripts))}
     switches = 0
-    for op in c["ops"]:
+    for op_index, op in enumerate(c["ops"]):
         name = op[0]
         ctx.count("api-op:" + name)
         if name == "use":               # switch the object the following operations are called on
@@ -384,14 +440,29 @@ def _check_api(ctx: Ctx, c: dict):
             switches += 1
             continue
         before = len(log)
-        _api_op(ctx, term, gc, op)
+        if fault is not None and op_index == fault["op"]:
+            # the stream refuses one call of this operation (nothing of that call takes effect); the caller does the operation again
+            ctl.update(in_op=True, armed=True, opname=name)
+            try:
+                _api_op(ctx, term, gc, op)
+            except OSError:
+                if not ctl["fired"]:
+                    raise
+            ctl["in_op"] = False
+            ctx.count("fault:%s:%s" % (name, "not-reached" if not ctl["fired"] else ctl["fired"].split(" ")[0] + (":first" if "after 0 " in ctl["fired"] else ":later")))
+            if ctl["fired"]:
+                ctx.count("fault-error:" + fault["err"])
+                ctl["armed"] = False
+                _api_op(ctx, term, gc, op)
+        else:
+            _api_op(ctx, term, gc, op)
         if attached[cur] is not None:
             during[attached[cur]] += log[before:]
             if switches:
                 ctx.count("api-after-switch:" + name)
     if len(terms) > 1:
         ctx.count("api-derived-terminals", len(terms) - 1)
-    if len(scripts) == 1 and first == 0 and not switches and b"".join(during[0]) != stream.getvalue():
+    if len(scripts) == 1 and first == 0 and not switches and b"".join(during[0]) != (b"".join(log) if stream is not out_command else stream.getvalue()):
         raise ToolFailure("C18 harness: attribution of writes to the only script lost bytes")
     for k, script_out in enumerate(scripts):
         writes = during[k]
@@ -399,6 +470,9 @@ def _check_api(ctx: Ctx, c: dict):
         script = script_out.getvalue().encode("utf-8")
         ctx.count("api-script-bytes", len(script))
         what = "public GraphicsTerminal path"
+        if fault is not None and ctl["fired"]:
+            what += "; one-shot %s at %s of operation %d %r, the operation then repeated: the script must print what the streams accepted" % (
+                fault["err"], ctl["fired"], fault["op"], c["ops"][fault["op"]][0])
         if len(scripts) > 1:
             ctx.count("api-script:" + ("never-attached" if not writes and not script else "judged"))
             what += ", script #%d of %d: the bytes the terminal received while it was the attached one" % (k, len(scripts))
@@ -583,6 +657,7 @@ def cases(ctx: Ctx):
         yield gen_api_derived(rng, i)
     # public paths while the script is switched between calls
     yield from scripted_grid(rng)
+    yield from fault_grid(rng, quick)
     for i in range(60 if quick else 800):
         yield gen_api_scripted(rng, i)
 
@@ -786,6 +861,41 @@ def scripted_grid(rng):
                 yield c
 
 
+def fault_grid(rng, quick=True):
+    """every kind of logged call x the position of ONE refused stream call inside it (a flush before the first write, the first
+    write, a later write: the 2nd..5th chunk of a transmission, the second cursor move) x error kind x one stream for display and
+    commands or two; the refused operation is repeated by the caller; calls of other kinds before and after it"""
+    errs = list(FAULT_ERRORS)
+    n = 0
+    for kind in SCRIPTED_KINDS + ["move2", "transmit-3chunks"]:
+        picks = 7 if kind in ("transmit-chunked", "transmit-3chunks") else 3 if kind in ("writecmd", "move2", "move", "transmit", "transmit-placed", "put", "transmitpath", "transmitfile") else 1
+        for pick in list(range(picks)) * (1 if picks > 3 else 2):
+            for split in (False, True):
+                if kind == "move2":
+                    target = ["move", rng.choice([{"up": 1, "left": 2}, {"down": 2, "right": 5}])]
+                elif kind == "transmit-3chunks":
+                    target = ["transmit", rng.randrange(1, 2**32), bytes(rng.randrange(256) for _ in range(rng.choice([200, 260]))).hex(), None]
+                else:
+                    target = _op_of_kind(rng, kind)
+                pre = [_op_of_kind(rng, rng.choice(SCRIPTED_KINDS)) for _ in range(rng.randrange(0, 3))]
+                post = [_op_of_kind(rng, rng.choice(SCRIPTED_KINDS)) for _ in range(rng.randrange(1, 3))]
+                c = {"k": "api", "ops": pre + [target] + post, "sh": 2 if n % 9 == 0 else 1,
+                     "fault": {"op": len(pre), "pick": pick, "err": errs[n % len(errs)], "split": split}}
+                if kind in ("transmit-chunked", "transmit-3chunks"):
+                    c["max"] = rng.choice([90, 120, 200]) if kind == "transmit-chunked" else 160
+                elif n % 5 == 0:
+                    c["max"] = rng.choice([100, 300, 4096])
+                if kind in ("transmitfile", "transmitpath") and n % 2:
+                    c["fd"] = True
+                if n % 4 == 3:
+                    c["tmux"] = rng.choice([1, 2])
+                if n % 7 == 0:          # the recording goes to a script attached later / switched after the repeated operation
+                    c["scripts"] = 2
+                    c["ops"] = c["ops"] + [["script", 0, 1], _op_of_kind(rng, rng.choice(SCRIPTED_KINDS))]
+                n += 1
+                yield c
+
+
 def gen_api_scripted(rng, i):
     """random recordings: mixed calls, 2-4 scripts, up to three objects (clone_with copies keep the script that was attached
     when they were made; a switch concerns the one object it is made on)"""
@@ -854,12 +964,18 @@ def run(ctx: Ctx):
                 "each of 20 kinds of logged call (one-chunk, chunked and placed transmissions, file transmissions, put, placeholders in 4 forms, "
                 "write bytes / str, writecmd, cursor moves, margins, scrolling, clearing, reset) x script given to the constructor or attached "
                 "later x 3 switching shapes, plus random recordings over 2-4 scripts and up to 3 objects; every script judged against the bytes "
-                "the terminal received while it was the one attached to the object that wrote them. "
+                "the terminal received while it was the one attached to the object that wrote them; recordings in which ONE write or flush "
+                "of the display / command stream (one object or two) is refused (EAGAIN, EIO, EPIPE, EINTR) before taking effect and the caller "
+                "repeats the operation: each kind of logged call x position of the refused call (flush before the first write, first write, "
+                "later chunk / second cursor move), the script must print exactly what the streams accepted. "
                 "distinct = canonical JSON; non-trivial = every case except the float table and hand-written spec scripts")
     ctx.assumptions += [
         "comments contain no newline (the library's callers never pass one; a newline would start a new script line) and no NUL/lone surrogates",
         "`sh` is dash (every shell-run case) and bash (a tenth of the cases and all small families); other shells are not exercised",
         "base64(1) is GNU coreutils: `-w0` disables wrapping",
+        "a refused stream call is a write (for a directly printed placeholder: the first one; the library logs a placeholder as a whole after "
+        "printing it) or a flush preceding the operation's first accepted write; a flush refused AFTER an accepted write (writecmd, send) is not "
+        "injected: those bytes were accepted by the stream object but are logged only after the flush",
         "get_cursor_position is deliberately not logged to the script and is not part of the reproduced bytes",
         "a script is attached by assigning the public attribute `shellscript_out` between (not during) calls; a clone_with copy keeps logging to "
         "the script that was attached when it was made",
